@@ -290,7 +290,66 @@ func ruleA15b(r *Run, p *Prog, rule string) {
 				}
 			}
 			r.Ob(rule, FnName(next)+"/Wait", p.Pos(c.Pos()), held && inLoop, true, tern(held && inLoop, "Wait under the mutex, inside the retry loop", "Cond.Wait is not called under the waiter's mutex inside the loop that re-tests TryNext"))
+			// the condition is tested in the same critical section that Wait releases: the mutex is
+			// held from the tests (TryNext, isDone) up to the Wait — no Unlock and no fresh Lock in
+			// between (otherwise a wake-up sent under the mutex between the test and the Wait is lost)
+			var tests []ssa.Instruction
+			eachInstr(next, func(_ *ssa.BasicBlock, _ int, x ssa.Instruction) {
+				cc, ok := x.(*ssa.Call)
+				if !ok {
+					return
+				}
+				if cc.Call.IsInvoke() && cc.Call.Method.Name() == "TryNext" {
+					tests = append(tests, cc)
+				}
+				if sc := staticCallee(&cc.Call); sc != nil && canonFn(sc) == "isDone" {
+					tests = append(tests, cc)
+				}
+			})
+			okSec := len(tests) >= 2
+			for _, t := range tests {
+				if !lockedAround(next, t, mu) {
+					okSec = false
+				}
+				// no lock operation on a path from the test to the Wait
+				touched, _ := pathExists(next, t, func(x ssa.Instruction) bool {
+					if _, d := x.(*ssa.Defer); d {
+						return false
+					}
+					_, _, isMu := mutexCall(x, mu)
+					return isMu
+				}, func(x ssa.Instruction) bool { return x == ssa.Instruction(c) }, nil)
+				if reach, _ := pathExists(next, t, func(x ssa.Instruction) bool { return x == ssa.Instruction(c) }, nil, nil); reach && touched {
+					okSec = false
+				}
+			}
+			r.Ob(rule, FnName(next)+"/test-and-wait-atomic", p.Pos(c.Pos()), okSec, true, tern(okSec, "TryNext and isDone are evaluated under the mutex that Wait releases, with no unlock in between", "the waiter tests its condition (TryNext / isDone) outside the critical section in which it waits: a Broadcast issued under the mutex between the test and the Wait reaches nobody and the consumer parks forever"))
 		})
+	}
+	// producers: the wake-up follows the publication — in (*Waiter).Set no path reaches Broadcast
+	// without having stored into the ring first
+	if set := p.Method(diodesRel, "Waiter", "Set"); r.Anchor(set != nil, rule, "(*Waiter).Set") {
+		sv := p.View(set, "", nil)
+		isPublish := func(x ssa.Instruction) bool {
+			c, ok := x.(*ssa.Call)
+			return ok && c.Call.IsInvoke() && c.Call.Method.Name() == "Set"
+		}
+		isSignal := func(x ssa.Instruction) bool {
+			c, ok := x.(*ssa.Call)
+			return ok && (isCallTo(&c.Call, "(*sync.Cond).Broadcast") || isCallTo(&c.Call, "(*sync.Cond).Signal"))
+		}
+		early, _ := pathExists(sv, nil, isSignal, isPublish, nil)
+		// and every path signals after the last publication
+		silent := false
+		eachInstr(sv, func(_ *ssa.BasicBlock, _ int, x ssa.Instruction) {
+			if isPublish(x) {
+				if miss, _ := pathExists(sv, x, isReturn, isSignal, nil); miss {
+					silent = true
+				}
+			}
+		})
+		okc := !early && !silent
+		r.Ob(rule, FnName(set)+"/signal-after-publish", p.Pos(set.Pos()), okc, true, tern(okc, "the consumer is woken after the message is in the ring, on every path", tern(early, "the wake-up is sent before the message is published: the consumer re-tests an empty ring, parks again, and the message sits there until something else is written", "a path publishes a message without waking the consumer")))
 	}
 }
 
@@ -378,12 +437,15 @@ func ruleDrainBeforeExit(r *Run, p *Prog, rule, tname string) {
 			b, isB := constBool(y)
 			return isB && x == ssa.Value(doneCall) && ((op == token.EQL && b) || (op == token.NEQ && !b))
 		})
-		if !(lastTry >= 0 && lastDone > lastTry && failed && done) {
+		// end of stream is reported only when the ring was found empty AFTER the cancellation had
+		// been observed: … isDone() == true … TryNext() fails … return nil.  (The weaker order
+		// "TryNext fails, then isDone() is true" loses a Set that completes between the two.)
+		if !(lastDone >= 0 && lastTry > lastDone && failed && done) {
 			okAll = false
 			detail = fmt.Sprintf("%s (lastTry=%d lastDone=%d failed=%v done=%v)", pa.String(p), lastTry, lastDone, failed, done)
 		}
 	}
-	r.Ob(rule, FnName(f)+"/drain-before-exit", p.Pos(f.Pos()), okAll && nNil > 0, true, tern(okAll && nNil > 0, fmt.Sprintf("%d end-of-stream path(s): each returns nil only after a failed TryNext followed by isDone()", nNil), "Next() can report end of stream without first finding the ring empty (isDone tested before TryNext, or no TryNext at all): messages still in the ring at Close are discarded ["+detail+"]"))
+	r.Ob(rule, FnName(f)+"/drain-before-exit", p.Pos(f.Pos()), okAll && nNil > 0, true, tern(okAll && nNil > 0, fmt.Sprintf("%d end-of-stream path(s): each returns nil only after isDone() was true and a TryNext after that found the ring empty", nNil), "Next() can report end of stream without having found the ring empty after it saw the cancellation (no TryNext after isDone() == true): a message whose Write returned before Close was called can be left in the ring, neither delivered nor reported ["+detail+"]"))
 }
 
 // eventsOnPaths returns, for every entry→return path of f, the ordered list of event labels.
@@ -553,6 +615,78 @@ func ruleFatalCloses(r *Run, p *Prog, rule string) {
 	}
 	r.Ob(rule, FnName(cl)+"/close-before-exit", p.Pos(cl.Pos()), okAll && sawClose, true, tern(okAll && sawClose, "Fatal closes a closable writer before os.Exit", "Fatal does not close the writer before exiting: events still buffered in a diode are lost"))
 	// wrappers between a Logger and a diode forward Close
+	// multiLevelWriter.Close visits every child: its loop ends by exhaustion, or by returning the
+	// non-nil error of a Close call (documented) — never because a child is not a Closer
+	if m := p.Method("", "multiLevelWriter", "Close"); m != nil {
+		mv := p.View(m, "", nil)
+		var closeCall *ssa.Call
+		eachInstr(mv, func(b *ssa.BasicBlock, i int, in ssa.Instruction) {
+			if c, ok := in.(*ssa.Call); ok && c.Call.IsInvoke() && c.Call.Method.Name() == "Close" {
+				closeCall = c
+			}
+		})
+		okAllChildren := false
+		why := "no Close call on the children found"
+		if closeCall != nil {
+			var hdr *ssa.BasicBlock
+			for _, b := range mv.Blocks {
+				if isLoopHeader(b) && loopBlocks(b)[closeCall.Block()] {
+					hdr = b
+				}
+			}
+			if hdr == nil {
+				why = "the children are not closed in a loop"
+			} else {
+				body := loopBlocks(hdr)
+				okAllChildren = true
+				why = ""
+				for b := range body {
+					if b == hdr {
+						continue
+					}
+					for si, sx := range b.Succs {
+						if body[sx] {
+							continue
+						}
+						// an exit from inside the loop: allowed only on the edge where the Close error is non-nil
+						allowed := false
+						if iff, ok := b.Instrs[len(b.Instrs)-1].(*ssa.If); ok {
+							if cm, ok := cmpOf(CondEdge{iff, si == 0}); ok && cm.Op == token.NEQ && isNilConst(cm.Y) {
+								if cm.X == ssa.Value(closeCall) {
+									allowed = true
+								}
+							}
+						}
+						// (or any later block reached only through that edge)
+						if !allowed {
+							for _, cm := range necessaryCmps(mv, b.Instrs[len(b.Instrs)-1]) {
+								if cm.Op == token.NEQ && isNilConst(cm.Y) && cm.X == ssa.Value(closeCall) {
+									allowed = true
+								}
+							}
+						}
+						if !allowed {
+							okAllChildren = false
+							why = "the loop over the children can be left early although no Close call failed (" + p.Pos(b.Instrs[len(b.Instrs)-1].Pos()) + ")"
+						}
+					}
+					if _, isRet := b.Instrs[len(b.Instrs)-1].(*ssa.Return); isRet {
+						allowed := false
+						for _, cm := range necessaryCmps(mv, b.Instrs[len(b.Instrs)-1]) {
+							if cm.Op == token.NEQ && isNilConst(cm.Y) && cm.X == ssa.Value(closeCall) {
+								allowed = true
+							}
+						}
+						if !allowed {
+							okAllChildren = false
+							why = "Close returns from inside the loop although no Close call failed"
+						}
+					}
+				}
+			}
+		}
+		r.Ob(rule, FnName(m)+"/closes-every-child", p.Pos(m.Pos()), okAllChildren, true, tern(okAllChildren, "every child that is an io.Closer is closed unless an earlier Close failed", "multiLevelWriter.Close does not reach every child: "+why+": a diode behind a later child is not drained on Close/Fatal"))
+	}
 	for _, tn := range []string{"LevelWriterAdapter", "syncWriter", "multiLevelWriter", "FilteredLevelWriter"} {
 		m := p.Method("", tn, "Close")
 		if m == nil {
@@ -827,4 +961,119 @@ func mustCallWith(fn *ssa.Function, callee ssa.Value, arg ssa.Value) bool {
 	}
 	escapes, _ := pathExists(fn, nil, isReturn, isIt, nil)
 	return !escapes
+}
+
+// TAKE — the consumer takes a message out of its slot with ONE atomic exchange and decides
+// everything (empty / stale / lapped / regular) on the very bucket that exchange returned: a
+// separate peek followed by a later swap lets producers replace the bucket in between, so the
+// sequence number that was tested is not the one of the data that is delivered (C10 order, no
+// duplicates).
+func ruleTakeAtomically(r *Run, p *Prog, rule string) {
+	for _, tn := range []string{"ManyToOne", "OneToOne"} {
+		f := p.Method(diodesRel, tn, "TryNext")
+		if f == nil {
+			if tn == "ManyToOne" {
+				r.Anchor(false, rule, "(*ManyToOne).TryNext")
+			}
+			continue
+		}
+		fv := p.View(f, "", nil)
+		var slotOps []*ssa.Call
+		eachInstr(fv, func(b *ssa.BasicBlock, i int, in ssa.Instruction) {
+			c, ok := in.(*ssa.Call)
+			if !ok || !isAtomicCall(&c.Call) || len(c.Call.Args) == 0 {
+				return
+			}
+			if ia, ok := c.Call.Args[0].(*ssa.IndexAddr); ok {
+				if fvr, _ := loadedField(ia.X); fvr != nil && fname(fvr) == "buffer" {
+					slotOps = append(slotOps, c)
+				}
+			}
+		})
+		one := len(slotOps) == 1 && calleeObj(&slotOps[0].Call) != nil && calleeObj(&slotOps[0].Call).Name() == "SwapPointer" && len(slotOps[0].Call.Args) == 2 && isNilConst(slotOps[0].Call.Args[1])
+		r.Ob(rule, FnName(f)+"/single-exchange", p.Pos(f.Pos()), one, true, tern(one, "the slot is read and emptied by a single atomic SwapPointer(slot, nil)", fmt.Sprintf("TryNext touches the ring slot with %d atomic operations (a peek and a later exchange, or no exchange at all): the bucket that is tested is not necessarily the one that is delivered", len(slotOps))))
+		if !one {
+			continue
+		}
+		// every access to a bucket's seq/data goes through the exchanged pointer
+		okAll := true
+		var bad token.Pos
+		eachInstr(fv, func(b *ssa.BasicBlock, i int, in ssa.Instruction) {
+			fa, ok := in.(*ssa.FieldAddr)
+			if !ok {
+				return
+			}
+			n := fname(fieldVar(fa))
+			if n != "seq" && n != "data" {
+				return
+			}
+			base := fa.X
+			for k := 0; k < 3; k++ {
+				if cv, ok := base.(*ssa.Convert); ok {
+					base = cv.X
+					continue
+				}
+				break
+			}
+			if base != ssa.Value(slotOps[0]) {
+				okAll = false
+				bad = fa.Pos()
+			}
+		})
+		pos := f.Pos()
+		if !okAll {
+			pos = bad
+		}
+		r.Ob(rule, FnName(f)+"/decides-on-exchanged-bucket", p.Pos(pos), okAll, true, tern(okAll, "sequence tests, the readIndex update and the returned data all use the exchanged bucket", "TryNext reads seq/data of a bucket other than the one it took out of the slot"))
+	}
+}
+
+// ruleReaderAdvances — on every path of TryNext that delivers a message (returns ok == true) the
+// last write to readIndex is `readIndex + 1`, after any fast-forward `readIndex = seq`: the read
+// head ends one past the delivered bucket.  (A delivering path that leaves the head on the slot it
+// just emptied never reads the newer messages behind it.)
+func ruleReaderAdvances(r *Run, p *Prog, rule string) {
+	for _, tn := range []string{"ManyToOne", "OneToOne"} {
+		f := p.Method(diodesRel, tn, "TryNext")
+		if f == nil {
+			continue
+		}
+		fv := p.View(f, "", nil)
+		paths, complete := enumPaths(fv, 1, 2000)
+		if !complete {
+			r.Ob(rule, FnName(f)+"/advances", p.Pos(f.Pos()), false, true, "cannot enumerate the paths of TryNext")
+			continue
+		}
+		okAll, n := true, 0
+		for _, pa := range paths {
+			ret, isRet := pa.Exit.(*ssa.Return)
+			if !isRet || len(ret.Results) != 2 {
+				continue
+			}
+			if b, isB := constBool(pa.Resolve(ret.Results[1])); !isB || !b {
+				continue
+			}
+			n++
+			var last ssa.Value
+			for _, in := range pa.Instrs() {
+				if st, ok := in.(*ssa.Store); ok {
+					if fa, ok := st.Addr.(*ssa.FieldAddr); ok && fname(fieldVar(fa)) == "readIndex" {
+						last = st.Val
+					}
+				}
+			}
+			inc := false
+			if bo, ok := last.(*ssa.BinOp); ok && bo.Op == token.ADD {
+				if one, ok := constInt(bo.Y); ok && one == 1 {
+					if fvr, _ := loadedField(bo.X); fvr != nil && fname(fvr) == "readIndex" {
+						inc = true
+					}
+				}
+			}
+			if !inc {
+				okAll = false
+			}
+		}
+		r.Ob(rule, FnName(f)+"/advances", p.Pos(f.Pos()), okAll && n > 0, true, tern(okAll && n > 0, fmt.Sprintf("%d delivering path(s): each ends with readIndex = readIndex + 1", n), "a path of TryNext delivers a message without finally advancing readIndex by one: the read head stays on the emptied slot and newer messages are never read (lost without an alert)"))
+	}
 }
